@@ -303,3 +303,17 @@ def is_plain_data(x, depth=0) -> bool:
     if type(x) is dict:
         return all(type(k) is str and is_plain_data(v, depth + 1) for k, v in x.items())
     return False
+
+
+# --------------------------------------------------------------------------- engine workarounds
+def make_type_nt(schema, name, **kw):
+    """cincoconfig.make_type with CrossHair's interception off: its `type(name, bases, ns)` patch deep-copies
+    the namespace (and with it the Schema, whose __getattr__ recurses on a blank copy)."""
+    from cincoconfig import make_type
+
+    if REPLAY:
+        return make_type(schema, name, **kw)
+    from crosshair.tracers import NoTracing  # type: ignore
+
+    with NoTracing():
+        return make_type(schema, name, **kw)
